@@ -572,7 +572,29 @@ fn target_cases(ti: usize) -> BoxedStrategy<Case> {
         _ => {}
     }
     if t.family == Family::Palette {
-        opts.push((8, (palette_text(t.group), prop::option::weighted(0.3, set())).prop_map(move |(b, m)| raw(b, m.into_iter().collect())).boxed()));
+        opts.push((8, (palette_text(t.group), prop::option::weighted(0.3, prop_oneof![set(), text_number()])).prop_map(move |(b, m)| raw(b, m.into_iter().collect())).boxed()));
+        if n > 0 {
+            // numbers of a golden text at extreme magnitudes, header lines with such numbers
+            opts.push((10, (0..n as u16, vec(text_number(), 1..=3)).prop_map(move |(g, muts)| Case { target, src: Src::Golden(g), inner: vec![], muts }).boxed()));
+        }
+    }
+    if t.group == G_ICY {
+        // hand-written record lists: one or two layers of either role with extreme sizes / picture headers, continuation records
+        let dim = || prop_oneof![3 => prop::sample::select(DIM_EXTREMES.to_vec()), 2 => 2u32..=12, 1 => any::<u32>()];
+        let layer = (0u8..=1, dim(), dim(), [dim(), dim(), dim(), dim()], prop_oneof![Just(vec![]), Just(SOME_CELLS.to_vec()), vec(any::<u8>(), 0..=20)])
+            .prop_map(|(role, w, h, pic, payload)| layer_record(role, w, h, if role == 1 { Some(pic) } else { None }, &payload));
+        opts.push((
+            8,
+            (vec(layer, 1..=2), vec((0u8..=2, 1u8..=2, continuation_payload()), 0..=2))
+                .prop_map(move |(layers, conts)| {
+                    let mut v = vec![Chunk { key: "ICED".into(), data: Bytes(vec![0, 0, 0, 0, 0, 0, 1, 0, 1, 1, 1, 80, 0, 0, 0, 25, 0, 0, 0]) }];
+                    v.extend(layers.into_iter().enumerate().map(|(i, d)| Chunk { key: format!("LAYER_{i}"), data: Bytes(d) }));
+                    v.extend(conts.into_iter().map(|(l, k, d)| Chunk { key: format!("LAYER_{l}~{k}"), data: Bytes(d) }));
+                    v.push(Chunk { key: "END".into(), data: Bytes(vec![]) });
+                    Case { target, src: Src::Chunks(v), inner: vec![], muts: vec![] }
+                })
+                .boxed(),
+        ));
     }
     if t.group == G_ICY && n > 0 {
         // mutation inside the zTXt records; sometimes followed by a mutation of the container
@@ -623,6 +645,7 @@ fn systematic(thorough: bool) -> Vec<Case> {
         }
         if t.group == G_ICY {
             icy_layer_cases(ti, &mut out);
+            icy_combo_cases(ti, &mut out);
         }
         let g = group(t.group);
         for (gi, gold) in g.iter().enumerate() {
@@ -661,6 +684,9 @@ fn systematic(thorough: bool) -> Vec<Case> {
                     out.push(Case { target: ti as u8, src: Src::Golden(gi as u16), inner: vec![], muts: vec![Mut::Field { idx: fi as u8, val: vi as u8 }] });
                 }
             }
+            if t.family == Family::Palette {
+                text_number_cases(&gold.bytes, &|m| Case { target: ti as u8, src: Src::Golden(gi as u16), inner: vec![], muts: vec![m] }, &mut out);
+            }
             if t.group == G_ICY {
                 // the same inside every record of the container
                 let chunks = icy_chunks(gi);
@@ -683,6 +709,10 @@ fn systematic(thorough: bool) -> Vec<Case> {
                                 muts: vec![],
                             });
                         }
+                    }
+                    // the ICE palette text inside the container
+                    if ch.key == "PALETTE" {
+                        text_number_cases(&ch.data, &|m| Case { target: ti as u8, src: Src::Golden(gi as u16), inner: vec![Inner::Payload { chunk: sel, m }], muts: vec![] }, &mut out);
                     }
                     // every record under every other keyword (in place, and as an additional record behind the original)
                     for name in 0..CHUNK_NAMES.len() as u8 {
@@ -780,6 +810,163 @@ fn icy_layer_cases(ti: usize, out: &mut Vec<Case>) {
     }
 }
 
+/// a LAYER record as the writer in icy_draw.rs lays it out: title "L", role, mode 0, visible, size, [picture header], payload
+fn layer_record(role: u8, w: u32, h: u32, picture: Option<[u32; 4]>, payload: &[u8]) -> Vec<u8> {
+    let mut r = Vec::new();
+    r.extend(1u32.to_le_bytes());
+    r.push(b'L');
+    r.push(role);
+    r.extend([0u8; 4]);
+    r.push(0); // mode
+    r.extend([0u8; 4]); // colour
+    r.extend(1u32.to_le_bytes()); // flags: visible
+    r.push(0); // transparency
+    r.extend(0i32.to_le_bytes());
+    r.extend(0i32.to_le_bytes());
+    r.extend(w.to_le_bytes());
+    r.extend(h.to_le_bytes());
+    r.extend(0u16.to_le_bytes());
+    r.extend(0u64.to_le_bytes()); // length
+    if let Some(p) = picture {
+        for v in p {
+            r.extend(v.to_le_bytes());
+        }
+    }
+    r.extend_from_slice(payload);
+    r
+}
+
+/// short cell, long cell, invisible cell, end of line, long cell: 2 rows of a text layer
+const SOME_CELLS: [u8; 42] = [
+    0x07, 0x40, b'a', 7, 0, 0, 0x01, 0x00, 0x88, 0x25, 0, 0, 44, 1, 0, 0, 2, 0, 0, 0, 1, 0, 0x00, 0x80, 0x00, 0xC0, 0x01, 0x00, b'd', 0, 0, 0, 7, 0, 0, 0, 1, 0, 0, 0, 0, 0,
+];
+const DIM_EXTREMES: [u32; 4] = [0, 0xFFFF_FFFF, 1, 0x7FFF_FFFF];
+
+fn continuation_variants() -> Vec<Option<Vec<u8>>> {
+    vec![None, Some(vec![]), Some(vec![0x41]), Some(SOME_CELLS.to_vec()), Some((0u8..16).collect())]
+}
+
+/// Conjunctions of record-level edits in IcyDraw containers: a hand-written first record of either role with extreme layer
+/// size / picture header (0, -1, 1, 0x7FFFFFFF), with and without a continuation record (empty, one byte, cells, picture
+/// bytes); two layers of different roles with continuation records for every index; and on every golden file the same
+/// through record operations (role byte toggled, picture-header field extremes, continuation for every layer index)
+fn icy_combo_cases(ti: usize, out: &mut Vec<Case>) {
+    let Some(iced) = icy_chunks(0).iter().find(|c| c.key == "ICED").cloned() else { return };
+    let end = Chunk { key: "END".into(), data: Bytes(vec![]) };
+    let rec = |key: &str, data: Vec<u8>| Chunk { key: key.to_string(), data: Bytes(data) };
+    let mut push = |records: Vec<Chunk>| {
+        let mut v = vec![iced.clone()];
+        v.extend(records);
+        v.push(end.clone());
+        out.push(Case { target: ti as u8, src: Src::Chunks(v), inner: vec![], muts: vec![] });
+    };
+    for cont in continuation_variants() {
+        let with_cont = |first: Vec<u8>| {
+            let mut v = vec![rec("LAYER_0", first)];
+            if let Some(c) = &cont {
+                v.push(rec("LAYER_0~1", c.clone()));
+            }
+            v
+        };
+        // picture layer: every combination of the four picture-header fields
+        for sw in DIM_EXTREMES {
+            for sh in DIM_EXTREMES {
+                for vs in DIM_EXTREMES {
+                    for hs in DIM_EXTREMES {
+                        push(with_cont(layer_record(1, 2, 1, Some([sw, sh, vs, hs]), &[1, 2, 3, 4])));
+                    }
+                }
+            }
+        }
+        // layer size extremes for both roles; the text layer with and without cells in its first record
+        for w in DIM_EXTREMES {
+            for h in DIM_EXTREMES {
+                push(with_cont(layer_record(1, w, h, Some([12, 6, 1, 1]), &[1, 2, 3, 4])));
+                push(with_cont(layer_record(0, w, h, None, &[])));
+                push(with_cont(layer_record(0, w, h, None, &SOME_CELLS)));
+            }
+        }
+        // two layers of different roles, a continuation record for every index (the third does not exist)
+        if let Some(c) = &cont {
+            for k in 0..3 {
+                let text = layer_record(0, 5, 3, None, &[]);
+                let picture = layer_record(1, 2, 1, Some([12, 6, 1, 1]), &[1, 2, 3, 4]);
+                let key = format!("LAYER_{k}~1");
+                push(vec![rec("LAYER_0", text.clone()), rec("LAYER_1", picture.clone()), rec(&key, c.clone())]);
+                push(vec![rec("LAYER_0", picture), rec("LAYER_1", text), rec(&key, c.clone())]);
+            }
+        }
+    }
+    // golden files
+    for gi in 0..group(G_ICY).len() {
+        let chunks = icy_chunks(gi);
+        let n = chunks.len();
+        let layers: Vec<(usize, String)> = chunks.iter().enumerate().filter(|(_, c)| c.key.starts_with("LAYER_") && !c.key.contains('~')).map(|(i, c)| (i, c.key.clone())).collect();
+        let golden = |inner: Vec<Inner>| Case { target: ti as u8, src: Src::Golden(gi as u16), inner, muts: vec![] };
+        // a continuation record for every layer index, existing or not
+        for k in 0..=layers.len() {
+            for c in continuation_variants().into_iter().flatten() {
+                out.push(golden(vec![Inner::Insert { back: 1, key: format!("LAYER_{k}~1"), data: Bytes(c) }]));
+            }
+        }
+        for (ci, key) in &layers {
+            let sel = ((ci * 65536 + 32768) / n) as u16;
+            // role byte: as written / picture / text (field 1 of the record), picture-header fields 14..=17: 0, 1, 0x7FFFFFFF, -1
+            for role in [None, Some(1u8), Some(0u8)] {
+                for field in 14u8..=17 {
+                    for val in [0u8, 1, 6, 8] {
+                        for cont in [None, Some(vec![]), Some(SOME_CELLS.to_vec())] {
+                            let mut inner = Vec::new();
+                            if let Some(r) = role {
+                                inner.push(Inner::Payload { chunk: sel, m: Mut::Field { idx: 1, val: r } });
+                            }
+                            inner.push(Inner::Payload { chunk: sel, m: Mut::Field { idx: field, val } });
+                            if let Some(c) = cont {
+                                inner.push(Inner::Insert { back: 1, key: format!("{key}~1"), data: Bytes(c) });
+                            }
+                            out.push(golden(inner));
+                        }
+                    }
+                }
+            }
+        }
+    }
+}
+
+/// selector that `pick` maps onto index i of n
+fn sel_of(i: usize, n: usize) -> u16 {
+    ((i * 65536 + 32768) / n.max(1)).min(65535) as u16
+}
+
+/// Grammar-aware edits of a text (palette formats): every number (decimal run, hex run) replaced by every magnitude of NUMBERS
+/// (all numbers of short texts; the first 16 and last 4 of long ones), and every header line + magnitude inserted as first,
+/// second, third and last line. `wrap` turns the text mutation into a case.
+fn text_number_cases(text: &[u8], wrap: &dyn Fn(Mut) -> Case, out: &mut Vec<Case>) {
+    for hex in [false, true] {
+        let runs = number_runs(text, hex);
+        let n = runs.len();
+        for i in 0..n {
+            if n > 24 && i >= 16 && i + 4 < n {
+                continue;
+            }
+            for val in 0..NUMBERS.len() as u8 {
+                out.push(wrap(Mut::Number { sel: sel_of(i, n), hex, val }));
+            }
+        }
+    }
+    let lines = line_starts(text).len();
+    let mut ats: Vec<u16> = (0..lines.min(3)).map(|i| sel_of(i, lines)).collect();
+    ats.push(u16::MAX);
+    ats.dedup();
+    for at in ats {
+        for kind in 0..HEADER_LINES.len() as u8 {
+            for val in 0..NUMBERS.len() as u8 {
+                out.push(wrap(Mut::HeaderLine { at, kind, val }));
+            }
+        }
+    }
+}
+
 fn main() {
     let mut eng = Engine::new("C02");
     eng.rule(
@@ -790,7 +977,10 @@ fn main() {
          Tundra commands, XBin header + runs, PSF headers, TDF header + tables, palette lines). Mutations: truncation, 1-4 byte corruption weighted to header and SAUCE tail, header-field \
          extremes per known field offset, SAUCE trailers with generated fields / comment counts / comment blocks, insert/cut, and all of these inside the base64 zTXt records of IcyDraw files. \
          Part `systematic` enumerates every truncation and every field extreme of every golden file and of every IcyDraw record, every trailer-only suffix of the files with SAUCE, \
-         every IcyDraw record under every other keyword, hand-written IcyDraw layer / continuation records cut at every length, every 1-byte file per loader and every 2-byte file for seq/ata. \
+         every IcyDraw record under every other keyword, hand-written IcyDraw layer / continuation records cut at every length, conjunctions of record-level edits (layer role x extreme layer size / \
+         picture header {0,-1,1,0x7FFFFFFF} x continuation record {none, empty, 1 byte, cells, picture bytes}, continuation records for every layer index incl. layers of the other role, on hand-written \
+         and golden record lists), every number of every palette text (and of the ICE palette inside .icy) replaced by magnitudes up to 2^64 and a 30-digit number, header lines with such numbers inserted, \
+         every 1-byte file per loader and every 2-byte file for seq/ata. \
          Non-trivial: the loader got past its magic / minimum-length check: it returned Ok with content (a buffer from non-empty input; for IcyDraw a document with layers; Some(sauce); >= 1 colour), \
          or it returned an error that is not one of the magic/length errors and differs from the error for the header bytes alone. Distinct by hash of the case.",
     );
